@@ -29,8 +29,12 @@ def _strip_shape(vn):
 
 
 class Facts(Walker):
-    def __init__(self, func: Func, prog, unit_params=(), callbacks=None, unit_summaries=None, assume=None, seed=None, seed_facts=None):
+    def __init__(self, func: Func, prog, unit_params=(), callbacks=None, unit_summaries=None, assume=None, seed=None, seed_facts=None, inline_private=False, seed_cells=None, _depth=0):
         super().__init__(func)
+        self.inline_private = inline_private      # analyse `self._helper(...)` calls as continuations (state flows in and out)
+        self.seed_cells = dict(seed_cells or {})
+        self._depth = _depth
+        self._inlined = {}
         self.seed = dict(seed or {})          # parameter name -> caller's value number (interprocedural continuation)
         self.seed_facts = frozenset(seed_facts or ())
         self.assume = dict(assume or {})      # parameter name -> assumed truth value (configuration-driven arms)
@@ -108,6 +112,7 @@ class Facts(Walker):
 
     def initial(self):
         st = {"F": self.seed_facts, "C": frozenset()}
+        st.update(self.seed_cells)
         a = self.func.node.args
         for p in a.posonlyargs + a.args + a.kwonlyargs:
             if p.arg == self.self_name:
@@ -204,6 +209,8 @@ class Facts(Walker):
         return self.vn(sl, st)
 
     def vn_call(self, node, st):
+        if self._inlined.get(id(node)):
+            return self._inlined[id(node)]
         f = node.func
         args = node.args
         npn = self.np_name(f)
@@ -362,6 +369,52 @@ class Facts(Walker):
         cb = self.cb.get("call")
         if cb:
             cb(self, node, st)
+        if self.inline_private and self._depth < 2:
+            self.inline(node, st)
+
+    def inline(self, node, st):
+        """`self._helper(args)` of the same class: run the helper as a continuation of this state (parameters carry the caller's value numbers and the
+        facts of the argument expressions, self-attribute cells flow in and out, divisions are collected); the call's value number becomes the
+        helper's returned value number when it is the same on every returning path"""
+        f = node.func
+        if not (isinstance(f, ast.Attribute) and isinstance(f.value, ast.Name) and f.value.id == self.self_name and self.func.cls is not None):
+            return
+        g = self.func.cls.lookup(f.attr)
+        if g is None or g is self.func or not g.name.startswith("_") or g.name.startswith("__") or id(node) in self._inlined:
+            return
+        params = g.params[1:] if not g.is_static else g.params
+        seed, extra = {}, set()
+        for p, a in list(zip(params, node.args)) + [(k.arg, k.value) for k in node.keywords if k.arg in params]:
+            if isinstance(a, ast.Starred):
+                continue
+            seed[p] = self.vn(a, st)
+            try:
+                if self.is_unit(a, st):
+                    extra.add(("UNIT", seed[p]))
+            except Exception:
+                pass
+        cells = {k: v for k, v in st.items() if k.startswith("s:")}
+        sub = type(self)(g, self.prog, callbacks=self.cb, unit_summaries=self.unit_summaries, seed=seed, seed_facts=st["F"] | frozenset(extra),
+                         inline_private=True, seed_cells=cells, _depth=self._depth + 1) if type(self) is Facts else \
+            Facts(g, self.prog, callbacks=self.cb, unit_summaries=self.unit_summaries, seed=seed, seed_facts=st["F"] | frozenset(extra),
+                  inline_private=True, seed_cells=cells, _depth=self._depth + 1)
+        try:
+            sub.analyse()
+        except Exception:
+            return
+        exits = [rst for _, rst in sub.returns if rst is not None]
+        if not exits:
+            return
+        joined = exits[0]
+        for e in exits[1:]:
+            joined = self.join(joined, e)
+        for k, v in joined.items():
+            if k.startswith("s:"):
+                st[k] = v
+        st["F"] = joined.get("F", st["F"])
+        self.divisions.extend(sub.divisions)
+        vns = {r["vn"] for r in sub.ret_info if not r.get("none")}
+        self._inlined[id(node)] = vns.pop() if len(vns) == 1 else None
 
     def s_Assign(self, s, st):
         self.expr(s.value, st)
